@@ -22,7 +22,7 @@ EXPLANATION = (
 )
 ASSUMPTIONS = ["CPython ast parses /repo's source as the interpreter would",
                "frozen RTLIL cell signature table (port -> width parameter) in sa/rules/c07.py"]
-MIN_INSTANCES = {"R-07g": 5, "R-07f": 3, "R-07a": 30, "R-07b": 8, "R-07c": 2, "R-07d": 2, "R-07e": 3}
+MIN_INSTANCES = {"R-07h": 4, "R-07g": 5, "R-07f": 3, "R-07a": 30, "R-07b": 8, "R-07c": 2, "R-07d": 2, "R-07e": 3}
 
 # cell type -> [(port, width parameter)], from the Yosys manual's cell library chapter
 SIG_UNARY = [("A", "A_WIDTH"), ("Y", "Y_WIDTH")]
@@ -548,5 +548,54 @@ def r07g(model, ctx):
     run_ref_file(model, ctx, "R-07g", "c07_flows")
 
 
-RULES = [("R-07g", r07g), ("R-07f", r07f), ("R-07a", r07a), ("R-07b", r07b), ("R-07c", r07c), ("R-07d", r07d), ("R-07e", r07e),
+
+def r07h(model, ctx):
+    """(1) an `enum_value_<bits>` attribute is named by the member's bit pattern in the wire's width: to_binary() refuses negative
+    numbers, so the value handed to it is masked to the width (negative members of signed enumerations);
+    (2) an I/O buffer is emitted as a plain connection only when its enable is the constant 1 — any other enable, the constant 0
+    included, keeps the tristate buffer;
+    (3) an anonymous wire created for a driven value carries the attributes collected for that value (the `init` of a
+    flip-flop whose output is not a whole named signal)."""
+    R = "R-07h"
+    from ..engine.bitalg import Canon
+    cn = Canon()
+    n = 0
+    for meth in ("emit_signal_wires", "emit_signal_fields"):
+        f = model.func(f"{RTLIL}::ModuleEmitter.{meth}")
+        for c in ast.walk(f):
+            if isinstance(c, ast.Call) and dotted(c.func) == "to_binary" and len(c.args) == 2 and "var_val" in unparse(c.args[0]):
+                n += 1
+                want = cn(ast.parse(f"var_val & ((1 << ({unparse(c.args[1])})) - 1)", mode="eval").body)
+                ok = cn(c.args[0]) == want
+                ctx.check(ok, R, f"{meth}:enum_value", "to_binary(value masked to the width, width)",
+                          f"{meth} names an enum_value attribute with `to_binary({unparse(c.args[0])}, {unparse(c.args[1])})`: a negative "
+                          f"member of a signed enumeration is refused by to_binary (ValueError: rtlil.convert fails for the design); "
+                          f"the value must be masked to the wire's width", f"{RTLIL}:{c.lineno}")
+    need(n >= 2, "the enum_value attribute names were not found in emit_signal_wires / emit_signal_fields")
+    fb = model.func(f"{RTLIL}::ModuleEmitter.emit_io_buffer")
+    tests = [t for t in (x.test for x in ast.walk(fb) if isinstance(x, ast.If)) if "cell.oe" in unparse(t)]
+    need(tests, "emit_io_buffer: the test on the buffer's enable was not found")
+    for t in tests:
+        tx = unparse(t)
+        ok = "cell.oe == _nir.Net.from_const(1)" in tx or "_nir.Net.from_const(1) == cell.oe" in tx
+        if not ok:
+            need("is_const" in tx or "from_const" in tx, f"emit_io_buffer: unrecognised test on the enable `{tx}`")
+        ctx.check(ok, R, "emit_io_buffer:always-enabled", "the buffer is replaced by a connection only for oe == constant 1",
+                  f"emit_io_buffer decides with `{tx}` whether to emit a plain connection instead of the tristate buffer: only an "
+                  f"enable that is the constant 1 may do that; a constant 0 must keep the pad undriven", f"{RTLIL}:{fb.lineno}")
+    fw = model.func(f"{RTLIL}::ModuleEmitter.emit_driven_wire")
+    wires = [c for c in ast.walk(fw) if isinstance(c, ast.Call) and unparse(c.func) == "self.builder.wire"]
+    need(wires, "emit_driven_wire: no builder.wire call found")
+    anon = [c for c in wires if not any(k.arg == "name" for k in c.keywords)]
+    for c in anon:
+        kw = {k.arg: unparse(k.value) for k in c.keywords}
+        ok = kw.get("attrs") in ("self.value_attrs.get(value, {})", "self.value_attrs.get(value, {}) or {}")
+        ctx.check(ok, R, "emit_driven_wire:anonymous-wire-attrs", "attrs=self.value_attrs.get(value, {})",
+                  f"the anonymous wire of a driven value must carry the attributes collected for the value (found attrs="
+                  f"{kw.get('attrs')}): without them a flip-flop whose output is part of a signal loses its `init`",
+                  f"{RTLIL}:{c.lineno}")
+    need(anon, "emit_driven_wire: the anonymous-wire path was not found")
+
+
+RULES = [("R-07h", r07h), ("R-07g", r07g), ("R-07f", r07f), ("R-07a", r07a), ("R-07b", r07b), ("R-07c", r07c), ("R-07d", r07d), ("R-07e", r07e),
          ("R-04c", c04.r04c), ("R-04e", _only(c04.r04e, lambda c: c.startswith("rtlil.") or c.startswith("emit_cell_wires")))]
